@@ -10,14 +10,25 @@ import signal
 
 def fork_map(fn, items, nproc=16, timeout_s=120):
     """yields (index, result) in completion order; result is ('err', text) if the child died or raised"""
-    items = list(items)
+    for idx, _item, res in fork_imap(fn, items, nproc, timeout_s):
+        yield idx, res
+
+
+def fork_imap(fn, items, nproc=16, timeout_s=120):
+    """like fork_map over any iterable (consumed lazily, so the parent stays small and forks stay cheap);
+    yields (index, item, result)"""
+    it = iter(items)
     sel = selectors.DefaultSelector()
-    running = {}  # fd -> [pid, idx, chunks]
+    running = {}  # fd -> [pid, idx, chunks, item]
     nxt = 0
-    done = 0
-    n = len(items)
-    while done < n:
-        while nxt < n and len(running) < nproc:
+    exhausted = False
+    while True:
+        while not exhausted and len(running) < nproc:
+            try:
+                item = next(it)
+            except StopIteration:
+                exhausted = True
+                break
             r, w = os.pipe()
             pid = os.fork()
             if pid == 0:
@@ -25,7 +36,7 @@ def fork_map(fn, items, nproc=16, timeout_s=120):
                     os.close(r)
                     signal.alarm(timeout_s)
                     try:
-                        res = ("ok", fn(items[nxt]))
+                        res = ("ok", fn(item))
                     except BaseException as e:  # noqa
                         import traceback
 
@@ -38,8 +49,10 @@ def fork_map(fn, items, nproc=16, timeout_s=120):
                     os._exit(0)
             os.close(w)
             sel.register(r, selectors.EVENT_READ)
-            running[r] = [pid, nxt, []]
+            running[r] = [pid, nxt, [], item]
             nxt += 1
+        if exhausted and not running:
+            return
         for key, _ in sel.select(timeout=5):
             fd = key.fd
             chunk = os.read(fd, 1 << 20)
@@ -51,10 +64,9 @@ def fork_map(fn, items, nproc=16, timeout_s=120):
             os.close(fd)
             os.waitpid(ent[0], 0)
             del running[fd]
-            done += 1
             data = b"".join(ent[2])
             try:
                 res = pickle.loads(data) if data else ("err", "child died without a result (hang/timeout/crash)")
             except Exception as e:  # noqa
                 res = ("err", f"unpicklable result: {e}")
-            yield ent[1], res
+            yield ent[1], ent[3], res
